@@ -547,6 +547,8 @@ def extra_stage(tier, rng, work):
                     res["viols"].append((c, "h2bb-boundary", "sozu understood one request with a %d byte body, the backend read %d request(s), body %d" % (body, nseen, nbody)))
         elif strict and got_kind == "answered":
             res["viols"].append((c, "h2bb-outcome", "the model refuses this stream (framing %s) but the client got 200" % c.tags["fr"]))
+        elif strict and got_kind == "silent":
+            res["viols"].append((c, "h2bb-outcome", "the model refuses this stream (framing %s): the client must get RST_STREAM / GOAWAY / an error status, it got nothing within the deadline" % c.tags["fr"]))
     res["coverage"].update(blackbox_h2_streams=len(scns), blackbox_h2_answered=answered, blackbox_h2_refused=refused)
     return res
 
